@@ -160,6 +160,8 @@ func capsOf(plugin string) []pf.Capability {
 		return []pf.Capability{REV}
 	case "TIREV":
 		return []pf.Capability{TI, REV}
+	case "REVTI": // the same two capabilities, declared in the other order
+		return []pf.Capability{REV, TI}
 	}
 	return nil
 }
@@ -177,7 +179,7 @@ type verdict struct {
 func model(c cell) verdict {
 	v := verdict{fail: map[trustpolicy.ValidationType]bool{}}
 	switch c.Plugin {
-	case "managerNil", "notInstalled", "tooOld", "tooOldPre", "noCap", "TImetaErr":
+	case "managerNil", "notInstalled", "tooOld", "tooOldPre", "noCap", "TImetaErr", "tooOldMalformedMin":
 		v.why = "plugin-unusable"
 		return v
 	}
@@ -230,7 +232,7 @@ type envKey struct {
 
 func main() {
 	r := lib.Start("C02", "exploration")
-	r.Rule = "every cell of {format x scheme} x 24 enforcement maps x anchor{found,notfound,loaderr} x identity x expired x chain-valid x revocation{ok,revoked,unknown,err} x plugin situation (13) x plugin verdicts x critical attribute state is executed against verifier.Verify; a cell is non-trivial and distinct by its full tuple"
+	r.Rule = "every cell of {format x scheme} x 24 enforcement maps x anchor{found,notfound,loaderr} x identity x expired x chain-valid x revocation{ok,revoked,unknown,err} x plugin situation (15) x plugin verdicts x critical attribute state is executed against verifier.Verify; a cell is non-trivial and distinct by its full tuple"
 	r.Assumptions = []string{
 		"notation-core-go (envelope parsing, integrity) is the trusted reference",
 		"all generated instants are >= 10 days away from now, so verdicts do not depend on the wall clock",
@@ -262,6 +264,9 @@ func main() {
 		}
 		if k.named == "yesmin" {
 			ext = append(ext, lib.ExtAttr{Key: lib.HdrPluginMinVer, Value: "2.0.0", Critical: true})
+		}
+		if k.named == "yesminTail" { // a vendor-style four-part minimum version: whatever it means, 1.0.0 is older
+			ext = append(ext, lib.ExtAttr{Key: lib.HdrPluginMinVer, Value: "2.1.0.0", Critical: true})
 		}
 		switch k.crit {
 		case "str":
@@ -303,7 +308,7 @@ func main() {
 
 	// ---- cell list
 	var cells []cell
-	plugins := []string{"none", "managerNil", "notInstalled", "tooOld", "tooOldPre", "noCap", "TI", "REV", "TIREV", "TIminEq", "TIminAbove", "TImetaErr", "TIverifyErr"}
+	plugins := []string{"none", "managerNil", "notInstalled", "tooOld", "tooOldPre", "noCap", "TI", "REV", "TIREV", "TIminEq", "TIminAbove", "TImetaErr", "TIverifyErr", "REVTI", "tooOldMalformedMin"}
 	for ci, fs := range combos {
 		crits := []string{"none", "processed", "unprocessed"}
 		if fs[0] == lib.MediaCOSE {
@@ -362,6 +367,8 @@ func main() {
 			named = "no"
 		case "tooOld", "tooOldPre", "TIminEq", "TIminAbove":
 			named = "yesmin"
+		case "tooOldMalformedMin":
+			named = "yesminTail"
 		}
 		crit := "none"
 		switch c.Crit {
@@ -405,6 +412,9 @@ func main() {
 		switch c.Plugin {
 		case "noCap":
 			p.caps = []pf.Capability{pf.CapabilitySignatureGenerator, pf.CapabilityEnvelopeGenerator}
+		case "tooOldMalformedMin":
+			p.caps = []pf.Capability{TI}
+			p.version = "1.0.0"
 		case "tooOld":
 			p.caps = []pf.Capability{TI}
 			p.version = "1.99.99"
